@@ -272,6 +272,8 @@ def pmap(fn, items, workers=None, state=None, chk=None):
         for i, r in zip(range(w, len(items), W), res):
             out[i] = r
         for (tag, what, rep, no_input, key) in rec:
+            if len(chk.violations) >= 40 and key is None:
+                continue            # enough replay files: every worker stops on its own count only
             chk.violation(tag, what, rep, no_input=no_input, finding_key=key)
         for p_, b_, c_ in zip(state, base, st):
             _merge(p_, b_, c_)
